@@ -33,9 +33,12 @@ ObsMatch == \/ (N' = NOf(Ev.post.N) /\ H' = HOf(Ev.post.H) /\ err' = Ev.post.err
             \/ /\ ~(N' = NOf(Ev.post.N) /\ H' = HOf(Ev.post.H) /\ err' = Ev.post.err)
                /\ PrintT(ToJson([mismatch |-> Traces[tid].id, at |-> l, expected |-> [N |-> N', H |-> [i \in Leaf |-> SetToSeq(H'[i])], err |-> err']]))
                /\ FALSE
+\* a history ends with {"outside": TRUE} when the real result is not a rational of the model's bounded domain of magnitudes
+\* (LMax / VMax): that is accepted only if the model agrees that the edit leaves the domain (the step is not enabled)
+IsOutside == "outside" \in DOMAIN Ev.post
 TNext == /\ l <= Len(Traces[tid].ev) /\ l' = l + 1 /\ tid' = tid
-         /\ Step
-         /\ ObsMatch
+         /\ IF IsOutside THEN ~(ENABLED Step) /\ UNCHANGED allvars
+            ELSE Step /\ ObsMatch
 TSpec == TInit /\ [][TNext]_<<allvars, tid, l>>
 Progress == IF TLCGet(tid) < l THEN TLCSet(tid, l) ELSE TRUE
 Report == LET bad == {t \in 1..NT : TLCGet(t) # Len(Traces[t].ev) + 1} IN
